@@ -406,8 +406,9 @@ PROPS = {
         bins={"main": dict(tc="gcc", src="prop_C15.cpp", variants=["plain", "z"], shims=["z"])},
         parts=[
             dict(name="bool_gp", workers={Q: 6, T: 6}, cases={Q: 20000, T: 600000}),
-            dict(name="bool_deg", workers={Q: 4, T: 4}, cases={Q: 40000, T: 1200000}),
-            dict(name="offset", workers={Q: 4, T: 4}, cases={Q: 4000, T: 120000}),
+            dict(name="bool_deg", workers={Q: 3, T: 3}, cases={Q: 40000, T: 1200000}),
+            dict(name="boolD_gp", workers={Q: 2, T: 2}, cases={Q: 20000, T: 600000}),
+            dict(name="offset", workers={Q: 3, T: 3}, cases={Q: 4000, T: 120000}),
             dict(name="rect", workers={Q: 2, T: 2}, cases={Q: 40000, T: 1200000}),
         ],
         rule=("the plain build and the USINGZ build (namespace-renamed) run in ONE binary on the same generated input with "
@@ -415,7 +416,8 @@ PROPS = {
               "points, random DefaultZ: (bool_gp) general-position sets with open subjects, (bool_deg) degenerate and "
               "rectilinear sets, paths and polytree, all clip types / fill rules / options: x,y of closed and open solutions "
               "(and tree levels) identical vertex for vertex; on general-position input additionally every solution vertex "
-              "carries an input Z given at its location or the value the (logging) callback assigned there last; (offset) "
+              "carries an input Z given at its location or the value the (logging) callback assigned there last; (boolD_gp) the "
+              "same two clauses for ClipperD with a ZCallbackD at precisions 0..4 (paths and PolyTreeD); (offset) "
               "polygons, polylines, 1-2-point paths x all join/end types x delta, paths and tree: identical x,y; (rect) "
               "RectClip and RectClipLines: identical x,y. Non-trivial = a solution vertex "
               "that is not an input vertex (Z part) / a non-empty result"),
